@@ -148,6 +148,9 @@ def data_independent_goal(k: z3.ArithRef, ctx: Optional[Ctx] = None) -> z3.BoolR
 # records
 
 
+CURRENT_JOB: List[str] = [""]
+
+
 class Record:
     """Everything one (function, configuration) run produced."""
 
@@ -172,9 +175,38 @@ def cfg_str(cfg: Dict[str, Any]) -> str:
     return ",".join(f"{k}={v}" for k, v in sorted(cfg.items()))
 
 
+KNOWN_RESTRICTIONS: Dict[str, Callable[[Ctx, Obligation], Optional[z3.BoolRef]]] = {}
+"""finding id -> function giving the NEGATED witness class of a known finding as an extra
+hypothesis; filled by contracts/known.py from /verif/known_findings.json."""
+KNOWN_MATCH: List[Tuple[str, str, str]] = []  # (finding id, job key substring, obligation name)
+
+
+def _try_known(rec: Record, ctx: Ctx, ob: Obligation) -> Optional[str]:
+    for fid, jobpat, obname in KNOWN_MATCH:
+        if obname == ob.name and jobpat in getattr(rec, "job_key", ""):
+            fn = KNOWN_RESTRICTIONS.get(fid)
+            if fn is None:
+                continue
+            extra = fn(ctx, ob)
+            if extra is None:
+                return fid  # finding keyed by configuration only
+            ob2 = Obligation(ob.name, [extra], ob.goal, ob.info)
+            ob2._pc = ob._pc  # type: ignore[attr-defined]
+            ob2._ctx = ob._ctx  # type: ignore[attr-defined]
+            discharge(ob2)
+            if ob2.status == "discharged":
+                return fid
+    return None
+
+
 def finish_obligations(rec: Record, ctx: Ctx, path_idx: int, witness_exprs: Optional[Dict[str, Any]] = None) -> None:
     for ob in ctx.obligations:
         discharge(ob)
+        if ob.status == "violated":
+            fid = _try_known(rec, ctx, ob)
+            if fid is not None:
+                ob.status = "known_finding"
+                ob.info = dict(ob.info, finding=fid)
         d = {
             "name": ob.name,
             "path": path_idx,
@@ -183,7 +215,7 @@ def finish_obligations(rec: Record, ctx: Ctx, path_idx: int, witness_exprs: Opti
             "time_s": round(ob.time_s, 4),
             "info": {k: (v if isinstance(v, (str, int, float, bool, type(None), list, dict)) else str(v)) for k, v in ob.info.items()},
         }
-        if ob.status == "violated":
+        if ob.status in ("violated", "known_finding"):
             d["model"] = ob.model
             if witness_exprs:
                 w = {}
@@ -213,6 +245,7 @@ def run_config(
     """build(ctx) -> (interp, thunk); post(path, idx) emits obligations into path.ctx and
     may return witness expressions {name: z3 expr} evaluated in counter-models."""
     rec = Record(fn, cfg)
+    rec.job_key = CURRENT_JOB[0]  # type: ignore[attr-defined]
     t0 = time.time()
     try:
         paths = explore(build, max_paths=max_paths)
